@@ -80,6 +80,16 @@ def token_soup(r: random.Random, alphabet: list[str], n: int) -> str:
 
 
 ILL_TYPED = [
+	'def f(a) -> int:\n\treturn a + 1\n',
+	'def f(a, b: int = 2) -> int:\n\tc = a\n\treturn c\n',
+	'def f(a) -> int:\n\treturn 1\n',
+	'class A:\n\tdef f(self, a=1) -> int:\n\t\treturn a\n',
+	"def f(m: int) -> None:\n\tfor i in 'neg'(m):\n\t\tpass\n",
+	'def f(a: list[int]) -> None:\n\tx = {k: v for k, v in a}\n',
+	'class A(A):\n\tdef m(self) -> None:\n\t\tself.m()\n',
+	'def __init__(self) -> None:\n\tself.x = 1\n',
+	'def f(a, b) -> None:\n\tc = a + b\n',
+	'def f(*args, **kwargs) -> None:\n\tpass\n',
 	'def f(a: int) -> int:\n\treturn undefined_name + a\n',
 	'def f(a: int) -> int:\n\treturn a.no_such_attr\n',
 	'def f(a: int) -> int:\n\treturn g(a)\n',
